@@ -209,24 +209,16 @@ def _check_printing(ctx, repo, folder, reader_values):
     f = dm.cls("DvClass").lookup("get_source")
     ctx.require(f is not None, "DvClass.get_source vanished")
     ctx.analysed(f)
-    # locate: <v> = field.get_init_value() ; if <v>: <block>
-    block = None
-    ivar = None
+    # the loop over the fields: the `for` whose body reads <loopvar>.get_init_value()
+    loop = None
     for n in ast.walk(f.node):
-        if isinstance(n, ast.Assign) and isinstance(n.value, ast.Call) and isinstance(n.value.func, ast.Attribute) and n.value.func.attr == "get_init_value":
-            if isinstance(n.targets[0], ast.Name):
-                ivar = n.targets[0].id
-    ctx.require(ivar is not None, "DvClass.get_source no longer reads field.get_init_value()")
-    for n in ast.walk(f.node):
-        if isinstance(n, ast.If) and isinstance(n.test, ast.Name) and n.test.id == ivar:
-            block = n
-    ctx.require(block is not None, "DvClass.get_source: 'if %s:' block not found" % ivar)
-    fieldvar = None
-    for n in ast.walk(f.node):
-        if isinstance(n, ast.For) and any(isinstance(x, ast.Assign) and x.value is not None and "get_init_value" in ast.unparse(x.value) for x in ast.walk(n)):
-            if isinstance(n.target, ast.Name):
-                fieldvar = n.target.id
-    ctx.require(fieldvar is not None, "DvClass.get_source: loop over fields not found")
+        if isinstance(n, ast.For) and isinstance(n.target, ast.Name):
+            for c in ast.walk(n):
+                if isinstance(c, ast.Call) and isinstance(c.func, ast.Attribute) and c.func.attr == "get_init_value" \
+                        and isinstance(c.func.value, ast.Name) and c.func.value.id == n.target.id:
+                    loop = n
+    ctx.require(loop is not None, "DvClass.get_source: the loop printing field initialisers was not found")
+    fieldvar = loop.target.id
     JAVA = {"B": "byte", "S": "short", "C": "char", "I": "int", "J": "long"}
     for letter, t in PROTO_OF.items():
         maxarg = SPEC[t][1]
@@ -240,41 +232,76 @@ def _check_printing(ctx, repo, folder, reader_values):
 
             def runp(extra, got=got, letter=letter, asg=asg):
                 a = {**asg, **extra}
-                it = Interp(repo, folder, asg=a)
-                it.max_split = 4
+                captured = []
                 iv = Obj(None, "init_value")
                 iv.attrs["value"] = got
                 fld = Obj(None, "field")
                 fld.attrs["proto"] = letter
-                out = []
-                src = Obj(None, "source")
-                env = {ivar: iv, fieldvar: fld, "f_type": JAVA[letter], "source": out, "name": Sym("name"), "__func__": f}
-                it.exec_block(block.body, env, f)
-                return a, out
+                fld.attrs["init_value"] = iv
+
+                def method(it, recv, name, args, kwargs, e, func):
+                    if recv is fld:
+                        if name == "get_init_value":
+                            return iv
+                        if name == "get_descriptor":
+                            return letter
+                        return Sym("field." + name)
+                    if recv is iv and name in ("get_value",):
+                        return got
+                    if name == "get_type" and args and args[0] == letter:
+                        return JAVA[letter]
+                    if name in ("append", "write", "extend") and not isinstance(recv, list) and args:
+                        captured.append(args[0])
+                        return None
+                    return NotImplemented
+
+                it = Interp(repo, folder, asg=a, hooks={"method": method})
+                it.max_split = 4
+                env = {fieldvar: fld, "__func__": f}
+                try:
+                    it.exec_block(loop.body, env, f)
+                except Exception as ex:
+                    if type(ex).__name__ in ("_Break", "_Continue"):
+                        pass
+                    else:
+                        raise
+                return a, captured
 
             res = explore(runp)
             for a0, r in res:
                 if isinstance(r, Raised):
-                    ctx.check("printed", inst, False, f, "print %s" % SPEC[t][0],
+                    ctx.check("printed", inst, False, f, "print %s raises %s" % (SPEC[t][0], r.exc),
                               "printing a %s initialiser raises %s for some stored values" % (JAVA[letter], r), node=r.node)
                     continue
                 a, out = r
                 printed = None
                 for piece in out:
                     if isinstance(piece, Sym) and piece.op == "strformat":
-                        args = piece.args[1]
-                        if isinstance(args, tuple) and args:
-                            printed = args[-1]
+                        args = piece.args[1] if isinstance(piece.args[1], tuple) else (piece.args[1],)
+                        for x in args:
+                            y = x.args[0] if isinstance(x, Sym) and x.op in ("hex", "str") and x.args else x
+                            if isinstance(y, Bits) or (isinstance(y, int) and not isinstance(y, bool)):
+                                printed = x
                 ok = False
                 pv = printed
-                if isinstance(pv, Sym) and pv.op == "hex" and pv.args:
+                if isinstance(pv, Sym) and pv.op in ("hex", "str") and pv.args:
                     pv = pv.args[0]
                 if isinstance(pv, int) and not isinstance(pv, bool):
                     pv = Bits.const(pv)
                 if isinstance(pv, Bits):
                     ok = pv.subst(a) == exp.subst(a)
+                if printed is None:
+                    # paths on which nothing numeric is printed (e.g. the initialiser branch is skipped) carry no obligation,
+                    # unless no path prints at all (checked below)
+                    continue
+                ctx.count("printed_paths")
                 ctx.check("printed", inst, ok, f, "print %s/%d byte(s): %s" % (SPEC[t][0], arg + 1, show(printed)[:120]),
                           "the %s initialiser is printed from %s; the value the DEX file defines is %s" % (JAVA[letter], show(printed)[:160], exp.describe()),
                           detail="prints %s" % exp.describe())
             ctx.count("print_cases")
     ctx.floor("print_cases", 10)
+    ctx.floor("printed_paths", 10)
+
+
+MUTATION_TARGETS = [(DEX, "EncodedValue.__init__"), (DEX, "EncodedValue._getintvalue"), (DEX, "EncodedValue.get_value"),
+                    (DEX, "ClassDataItem.set_static_fields"), ("androguard/decompiler/decompile.py", "DvClass.get_source")]
